@@ -1,8 +1,8 @@
 (* C18 property theorems added in phase 3 (the C18 engineer's part of coq/C16; the earlier C18 theorems are in Properties.v).
    Nothing but statements closed by `exact`, each followed by Print Assumptions. *)
-From Coq Require Import String List.
-From C16 Require Import ObjModel RaceFree RaceFreeDisjoint RaceFreeValues RaceFreeAtomic.
-From C16.gen Require Import RaceFreeGen.
+From Coq Require Import String List ZArith.
+From C16 Require Import ObjModel RaceFree RaceFreeDisjoint RaceFreeValues RaceFreeAtomic RaceFreeRefcount RaceFreeDomains.
+From C16.gen Require Import Desc RaceFreeGen.
 
 (* disjoint footprints: every thread stays inside its region A i and no other thread writes into it (thread-private elements,
    independent values) -> for any number of threads and every interleaving: no conflicting pair of accesses ... *)
@@ -69,6 +69,31 @@ Theorem C18_split_increment_refuted : SplitIncrement_refuted_stmt.       Proof. 
 Print Assumptions C18_split_increment_refuted.
 Theorem C18_no_split_updates_no_store : NoSplitNoStore_stmt.             Proof. exact no_split_updates_no_store. Qed.
 Print Assumptions C18_no_split_updates_no_store.
+
+(* the reference-count PROTOCOL including the free (RaceFreeRefcount.v): every reachable configuration of every interleaving *)
+Theorem C18_refcount_protocol : forall ext, (0 <= ext)%Z -> RefcountProtocol_stmt ext.
+Proof. exact refcount_protocol. Qed.
+Print Assumptions C18_refcount_protocol.
+Theorem C18_refcount_freed_once : forall ext, (0 <= ext)%Z -> RefcountFreedOnce_stmt ext.
+Proof. exact refcount_freed_once. Qed.
+Print Assumptions C18_refcount_freed_once.
+Theorem C18_refcount_example_satisfiable : RefcountExample_stmt.         Proof. exact refcount_example. Qed.
+Print Assumptions C18_refcount_example_satisfiable.
+(* decrement followed by a separate load for the zero test: a double free in some interleaving *)
+Theorem C18_separate_zero_test_refuted : SeparateZeroTest_refuted_stmt.  Proof. exact separate_zero_test_refuted. Qed.
+Print Assumptions C18_separate_zero_test_refuted.
+Theorem C18_split_list_rmw : SplitListRmw_stmt.                          Proof. exact split_list_rmw. Qed.
+Print Assumptions C18_split_list_rmw.
+
+(* domain classes: the generic theorems composed with a generated class description (shared read-only operands allowed) *)
+Theorem C18_domain_program : DomainProgram_stmt.                         Proof. exact domain_program. Qed.
+Print Assumptions C18_domain_program.
+Theorem C18_domain_example_satisfiable : DomainExample_stmt.             Proof. exact domain_example. Qed.
+Print Assumptions C18_domain_example_satisfiable.
+Theorem C18_claimed_not_offender_accepted : ClaimedNotOffender_stmt.     Proof. exact claimed_not_offender. Qed.
+Print Assumptions C18_claimed_not_offender_accepted.
+Theorem C18_offenders_list_accepted : OffendersListAccepted_stmt.        Proof. exact offenders_list_accepted. Qed.
+Print Assumptions C18_offenders_list_accepted.
 
 (* the decisions on the description generated from the current source (RaceFreeGen.v) *)
 Theorem C18_decided_values_writers : Decide_values_stmt.                Proof. exact decide_values. Qed.
